@@ -75,7 +75,7 @@ class P(Prop):
             rated = Fraction(rng.choice([100, 250, 950, 1000, 2000, 4000]))
             if u < 0.4:
                 out.append({"stream": "basic", "rated": rated, "curve": gen_curve(rng, clampy=rng.random() < 0.25),
-                            "qs": queries(rng, rated)})
+                            "qs": queries(rng, rated), "from_file": rng.random() < 0.2})
             elif u < 0.6:
                 ns = rng.choice([2, 2, 3])
                 equal = rng.random() < 0.4
@@ -106,6 +106,21 @@ class P(Prop):
         from feems.types_for_feems import TypeComponent, TypePower
         st = case["stream"]
         r = float(case["rated"])
+        if st == "basic" and case.get("from_file") and len(case["curve"]) > 1:
+            # the same component described by a data file (rating and efficiency table read from the CSV, the rated
+            # power argument left at its default)
+            import pandas as pd
+            d = core.BUILD / "tmp"
+            d.mkdir(parents=True, exist_ok=True)
+            f = d / f"component_{__import__('os').getpid()}.csv"
+            cols = {"Rated Power": [r], "Rated Speed": [1000.0]}
+            for l, v in case["curve"]:
+                cols[f"Efficiency@{float(l)}%"] = [float(v)]
+            pd.DataFrame(cols, index=["c"]).to_csv(f)
+            try:
+                return BasicComponent(TypeComponent.TRANSFORMER, TypePower.POWER_TRANSMISSION, "c", file_name=str(f))
+            finally:
+                f.unlink()
         if st == "basic":
             return BasicComponent(TypeComponent.TRANSFORMER, TypePower.POWER_TRANSMISSION, "c", r, np_curve(case["curve"]))
         if st == "serial":
@@ -192,6 +207,25 @@ class P(Prop):
                         b, _ = comp.get_power_input_from_bidirectional_output(float(s))
                     rt.append(abs(float(b) - x) / float(case["rated"]))
                 out["roundtrip_err"] = rt
+                # the same round trips with strict balance: scalars one by one and the whole series at once
+                srt = []
+                r_ = float(case["rated"])
+                xs = [float(q[2]) for q in qs if abs(float(q[2])) <= r_] + [0.003 * r_, -0.004 * r_, 0.01 * r_, -0.015 * r_]    # incl. very low loads
+                out["strict_xs"] = xs
+                for x in xs:
+                    if x > 0:
+                        s, _ = comp.get_power_input_from_bidirectional_output(x, strict_power_balance=True)
+                        b, _ = comp.get_power_output_from_bidirectional_input(float(s), strict_power_balance=True)
+                    else:
+                        s, _ = comp.get_power_output_from_bidirectional_input(x, strict_power_balance=True)
+                        b, _ = comp.get_power_input_from_bidirectional_output(float(s), strict_power_balance=True)
+                    srt.append(abs(float(b) - x) / float(case["rated"]))
+                out["strict_roundtrip_err"] = srt
+                if xs:
+                    a = np.array(xs)
+                    s, _ = comp.get_power_input_from_bidirectional_output(a.copy(), strict_power_balance=True)
+                    b, _ = comp.get_power_output_from_bidirectional_input(np.asarray(s, dtype=float).copy(), strict_power_balance=True)
+                    out["strict_roundtrip_err_series"] = [float(v) for v in np.abs(np.asarray(b, dtype=float) - a) / float(case["rated"])]
             return out
 
     def term(self, case, obs):
@@ -256,6 +290,12 @@ class P(Prop):
         for q, e in zip(case["qs"], obs.get("roundtrip_err", [])):
             if e > 0.005:
                 return f"round trip of {float(q[2])} kW misses by {e * 100:.3f} % of rated power (claimed: within 0.5 %)"
+        for how, errs in (("a scalar", obs.get("strict_roundtrip_err", [])), ("a series", obs.get("strict_roundtrip_err_series", []))):
+            for x, e in zip(obs.get("strict_xs", []), errs):
+                q = [0, 0, x]
+                if not e <= 1e-6:
+                    return (f"round trip of {float(q[2])} kW with strict balance (as {how}) misses by {e:.3e} of rated power "
+                            f"(claimed: within 1e-6)")
         return None
 
     @staticmethod
@@ -281,6 +321,8 @@ class P(Prop):
         t = ["stream=" + case["stream"]]
         if case["stream"] == "basic":
             t.append("accepted" if obs.get("accepted") else "rejected(non-monotonic)")
+            if case.get("from_file") and len(case["curve"]) > 1:
+                t.append("component-described-by-a-data-file")
             c = case["curve"]
             vals = [c[0]] if len(c) == 1 and not isinstance(c[0], list) else [v for _, v in c]
             if any(v > 1 or v < Fraction(1, 100) for v in vals):
